@@ -212,6 +212,10 @@ class SchedulingSolver(BaseModelWithJson):
         for task in self.problem.tasks.values():
             self.append_z3_assertion(task.get_z3_assertions())
             self.append_z3_assertion(task._end <= self.problem._horizon)
+        # a task that is not scheduled ends at a negative date: when every task can be left
+        # out the horizon (and the makespan) would otherwise be allowed to be negative
+        if any(task.optional for task in self.problem.tasks.values()):
+            self.append_z3_assertion(self.problem._horizon >= 0)
 
         # process resources assertions
         for ress in self.problem.workers.values():
